@@ -85,7 +85,7 @@ def run(rep, tier, seed):
     le = imp()
     for bad in string_questions(le)[:1]:
         rep.violations.append({'key': 'strings', 'kind': 'strings', 'what': bad['what'], 'text': '%s / %s' % (bad['a'], bad['b'])})
-    rep.count('string_question_sequences', 6)
+    rep.count('string_question_sequences', 18)
     Ls = instances(le)
     rng = random.Random(seed)
     n = 12000 if tier == 'thorough' else 1200
@@ -150,27 +150,37 @@ def run(rep, tier, seed):
 def string_questions(le):
     """Strings as parsed objects, on one shared instance asked repeatedly under both tokenizers and in both orders: the answer
     for two strings is the answer for their parses (same tokenizer) on a fresh instance, whatever was asked before."""
-    T = [le.LicenseSymbol('GPL-2.0', aliases=('gpl2', 'GNU GPL 2')), le.LicenseSymbol('mit', aliases=('MIT license',)),
-         le.LicenseSymbol('cp', is_exception=True)]
+    T0 = [le.LicenseSymbol('GPL-2.0', aliases=('gpl2', 'GNU GPL 2')), le.LicenseSymbol('mit', aliases=('MIT license',)),
+          le.LicenseSymbol('cp', is_exception=True)]
     pairs = [('gpl2', 'GPL-2.0'), ('gpl2 or mit', 'mit or GPL-2.0'), ('gpl2 and mit', 'GPL-2.0'), ('mit or GPL-2.0', 'gpl2'),
-             ('GNU GPL 2 with cp', 'gpl-2.0 WITH cp'), ('mit', 'MIT'), ('foo and mit', 'mit and FOO')]
+             ('GNU GPL 2 with cp', 'gpl-2.0 WITH cp'), ('mit', 'MIT'), ('foo and mit', 'mit and FOO'),
+             # names of several words nobody declared: one license each under the default tokenizer, on every table
+             ('GPL 2.0 and mit', 'mit and GPL 2.0'), ('Apache 2.0 or (mit and bsd new)', '(bsd new and mit) or Apache 2.0'),
+             ('public domain', 'public domain'), ('bsd new and mit', 'bsd new')]
     out = []
-    for order in ((False, True), (True, False), (None, True), (True, None), (None, False), (False, None)):
-        L = le.Licensing(T)
-        for simple in order:
-            kw = {} if simple is None else {'simple': simple}
-            for a, b in pairs:
-                F = le.Licensing(T)
-                try:
-                    pa, pb = F.parse(a, **kw), F.parse(b, **kw)
-                except le.ExpressionError:
-                    continue
-                for name in ('is_equivalent', 'contains'):
-                    want = getattr(F, name)(pa, pb)
-                    got = getattr(L, name)(a, b, **kw)
-                    if got != want:
-                        out.append({'what': '%s(%r, %r, %r) on strings is %r after the questions %r; on their parses it is %r'
-                                            % (name, a, b, kw, got, order, want), 'a': a, 'b': b, 'order': list(order)})
+    # the same questions on a table with names, on a table with one name, on no table at all
+    for T in (T0, [le.LicenseSymbol('mit')], None):
+        new = (lambda: le.Licensing(T)) if T is not None else (lambda: le.Licensing())
+        for order in ((False, True), (True, False), (None, True), (True, None), (None, False), (False, None)):
+            L = new()
+            for simple in order:
+                kw = {} if simple is None else {'simple': simple}
+                for a, b in pairs:
+                    F = new()
+                    try:
+                        pa, pb = F.parse(a, **kw), F.parse(b, **kw)
+                    except le.ExpressionError:
+                        continue
+                    for name in ('is_equivalent', 'contains'):
+                        want = getattr(F, name)(pa, pb)
+                        try:
+                            got = getattr(L, name)(a, b, **kw)
+                        except Exception as ex:   # noqa
+                            got = 'raised %r' % (ex,)
+                        if got != want:
+                            out.append({'what': '%s(%r, %r, %r) on strings is %r on a Licensing over %r after the questions %r; on their '
+                                                'parses it is %r' % (name, a, b, kw, got, None if T is None else [x.key for x in T], order, want),
+                                        'a': a, 'b': b, 'order': list(order)})
     return out
 
 
